@@ -400,6 +400,7 @@ func executeCPU(id string, sc *engine.Scenario, focus map[string]bool) *engine.R
 		nextCase()
 	}
 	since := 0
+	spins := 0
 	l.onInstr = func(l *lockstep, realCycles int, mism []lsMismatch) bool {
 		key := l.opKey()
 		for _, mm := range mism {
@@ -465,9 +466,13 @@ func executeCPU(id string, sc *engine.Scenario, focus map[string]bool) *engine.R
 			}
 			return true
 		}
-		// stop when the terminating loop is reached
-		if key == "18" && l.ref.PC == l.ref.OpPC {
-			return false
+		// stop when the terminating loop has gone round a few times (a JR to itself is an instruction
+		// like any other: three cycles each time, with the master enable set or clear)
+		if key == "18" && l.ref.PC == l.ref.OpPC && l.ref.OpPC != 0xfffc {
+			spins++
+			if spins >= 4 {
+				return false
+			}
 		}
 		return true
 	}
